@@ -80,9 +80,9 @@ vh::Outcome run_c16(const vh::Case& c, bool concurrent, bool locked_class) {
             auto run_ops = [&](const std::vector<vh::Op>& ops) {
                 for (auto& op : ops) {
                     int kind = op.code % 8;
-                    if ((kind == 0 || kind == 7) && (op.b >> 2) == 7) {   // a large batch of fresh, unshared objects: one sweep reaps dozens / hundreds at once
+                    if ((kind == 0 || kind == 7) && (op.b >> 2) == 7 && X.lbl_batch == 0) {   // a large batch of fresh, unshared objects (one per case): one sweep reaps dozens / hundreds at once
                         static const int batch[4] = {33, 40, 70, 300};
-                        int nb = batch[op.a % 4];
+                        int nb = batch[cb_reenter == 2 ? 0 : op.a % 4];      // (a callback that adds an object per reaped object doubles the work: keep that combination small)
                         X.lbl_batch = std::max(X.lbl_batch, nb);
                         for (int q = 0; q < nb; ++q) {
                             Info16& in = X.fresh(0);
